@@ -465,7 +465,9 @@ func c03Coercion(p *Prog) *RuleResult {
 
 	// --- ToNullOrUndefinedWithSideEffects -----------------------------------------------------
 	if rows, ok := table("js_ast.ToNullOrUndefinedWithSideEffects"); ok {
-		finishRows("ToNullOrUndefined", rows, func(row c03Row) (string, bool) { return judge3(row, "is-null-or-undefined", map[string]bool{}, nullish) })
+		finishRows("ToNullOrUndefined", rows, func(row c03Row) (string, bool) {
+			return judge3(row, "is-null-or-undefined", map[string]bool{}, nullish)
+		})
 	}
 
 	// --- TypeofWithoutSideEffects -------------------------------------------------------------
